@@ -12,9 +12,9 @@ def prop(pid, **kw):
 prop('C01', rules=['C01.mask', 'rows', 'regions', 'defer_plan'], take=['C01.mask', 'C01.once', 'C01.levels', 'C05.cell'],
      floors={'mask-sites:back': 1, 'mask-sites:back11': 1, 'mask-sites:backmp11': 1},
      explanation='Static rules over the type-checked instantiations of the dispatch code: C01.mask (no equality test on the handled enumerator of a result code).')
-prop('C12', rules=['C12.assign'],
-     floors={'uninit-locals-in-try-functions:backmp11': 1},
-     explanation='C12.assign: definite assignment of scalar locals of back-end functions with exception-handler edges.')
+prop('C12', rules=['C12.assign', 'catch', 'flag'], take=['C12.assign', 'C12.catch', 'C04.flag-exc', 'C04.flag-exit', 'C04.flag'],
+     floors={'dispatch-site:back:do_process_helper': 1, 'dispatch-site:back11:do_process_helper': 1, 'dispatch-site:backmp11:process_event_internal': 1, 'dispatch-site:backmp11:process_completion_transition': 1},
+     explanation='C12.assign: definite assignment of scalar locals of back-end functions with exception-handler edges. C12.catch: the dispatch runs inside a try whose std::exception handler calls exception_caught exactly once with the event being processed, cannot reach no_transition and yields HANDLED_FALSE; outside a try only in the no-exception configuration. C04.flag*: the processing flag is cleared on every exit, entry sequences hold it through a scope guard (a throwing entry does not wedge the machine), exception_caught runs under the flag.')
 
 ROWS_EXPL = ('Row executors (every instantiation of row_/g_row_/a_row_/_row_, the irow_/internal_ families, frow, and the '
              'backmp11 transition / internal_transition / forward_transition): all CFG paths are enumerated (front-end folded '
@@ -38,7 +38,7 @@ prop('C19', rules=['rows'], take=['C19.slots'], floors=FLOOR_EXT,
 prop('C09', rules=['rows', 'cascade'], take=['C09.exit-active', 'C09.entry'], floors={'exit-source-exec:back': 1, 'exit-source-exec:back11': 1, 'exit-source-exec:backmp11': 1},
      explanation=ROWS_EXPL + ' C09.exit-active: an executor whose source is an exit pseudostate has a path returning HANDLED_FALSE before the guard, decided by a test that depends on the owner submachine\'s active-state array.')
 
-prop('C04', rules=['queues', 'flag', 'poolchain'], take=['C04.queue-ops', 'C04.dequeue', 'C04.erase', 'C04.target', 'C04.flag', 'C04.flag-exc', 'C04.flag-drain', 'C04.flag-exit', 'C04.flag-test'],
+prop('C04', rules=['queues', 'flag', 'poolchain', 'drain'], take=['C04.queue-ops', 'C04.dequeue', 'C04.erase', 'C04.target', 'C04.flag', 'C04.flag-exc', 'C04.flag-drain', 'C04.flag-exit', 'C04.flag-test', 'C10.first'],
      floors={'flag-fn:back:process_event_internal': 1, 'flag-fn:back11:process_event_internal': 1, 'flag-fn:backmp11:process_event_internal': 1,
              'flag-fn:back:start': 1, 'flag-fn:back11:start': 1, 'flag-fn:back:do_entry': 1, 'flag-fn:back11:do_entry': 1, 'flag-fn:backmp11:on_entry': 1,
              'flag-fn:backmp11:on_explicit_entry': 1, 'flag-fn:backmp11:process_completion_transition': 1,
@@ -64,10 +64,15 @@ prop('C03', rules=['cascade'], take=['C03.start-stop', 'C03.region-index'],
      explanation='start() rewrites the active ids from the initial states before any entry, then machine entry, initial entries, completion, queue; stop() reaches the composite exit cascade exactly once (backmp11: guarded by the running mark, which is cleared after the cascade); every region helper indexes the active-state array with its own region constant.')
 prop('C08', rules=['cascade'], take=['C08.sites'], floors={'composite-entry:back': 1, 'composite-entry:back11': 1, 'composite-entry:backmp11': 1, 'history-entry:backmp11': 1},
      explanation='History call sites: composite entry applies the history policy to all regions before explicit overrides and before any entry; backmp11 history entry first sets all active ids, then runs exactly those entries.')
-prop('C10', rules=['cascade'], take=['C10.first'], floors={'internal-start:back': 1, 'internal-start:back11': 1, 'entry-visitor:backmp11': 1},
+prop('C10', rules=['cascade', 'drain', 'flag', 'queues'], take=['C10.first', 'C04.flag-drain', 'C04.queue-ops'], floors={'internal-start:back': 1, 'internal-start:back11': 1, 'entry-visitor:backmp11': 1, 'post-step:back': 1, 'post-step:back11': 1, 'post-step:backmp11': 1, 'queue-op:backmp11:POOL:push_front': 1},
      explanation='Completion first: internal_start dispatches the completion event right after the substate entries; backmp11 every state entry is followed by on_state_entry_completed (which inserts the completion occurrence at the front of the pool, see C04.queue-ops).')
 prop('C05', rules=['queues', 'cascade', 'seqtype', 'defer_plan'], take=['C04.queue-ops', 'C04.dequeue', 'C04.erase', 'C04.target', 'C05.clear', 'C05.seq-type', 'C05.cell'],
      floors={'queue-op:back:DEFQ:push_back': 1, 'queue-op:back11:DEFQ:push_back': 1, 'queue-op:back:DEFQ:pop_front': 1, 'queue-op:back11:DEFQ:pop_front': 1,
              'queue-op:back:DEFQ:stable_sort': 1, 'queue-op:back11:DEFQ:stable_sort': 1, 'queue-op:backmp11:POOL:push_back': 1, 'queue-op:backmp11:POOL:erase': 1,
              'seq-compare:back': 1, 'seq-compare:back11': 1, 'seq-compare:backmp11': 1, 'deferral-check:backmp11-frs': 1},
      explanation='Deferred-queue operation discipline: append only (push_back) with the stored callable bound to the deferring machine and the event by value, removal only front/pop_front after copy-out, re-ordering only by stable_sort, clear only on exit when the history policy drops deferred events (C05.clear); backmp11 pool: append / erase-after-mark.')
+
+prop('C11', rules=['gate'], take=['C11.gate', 'C11.type'],
+     floors={'gate-blocking:back:process_event_internal': 1, 'gate-blocking:back11:process_event_internal': 1, 'gate-blocking:backmp11:process_event_internal': 1,
+             'gate-blocking:backmp11:process_completion_transition': 1, 'gate-helper:back': 1, 'gate-helper:back11': 1},
+     explanation='Blocking gate: in process_event_internal (3 back-ends) and process_completion_transition every path reaches the terminate / interrupt test before any flag access, queue operation, deferral or dispatch, and the "blocked" outcome returns without any of them; the back/back11 helper returns true exactly for terminate or (interrupted and not end-interrupt) and looks the end-interrupt flag up for the decayed event type; machines with blocking states (front-end internal_flag_list) use the real test.')
